@@ -570,7 +570,7 @@ func main() {
 
 	var cases []caseSpec
 	for _, kind := range []string{"mutable", "immutable"} {
-		prevs := []int{1, 2}
+		prevs := []int{1}
 		if !r.Quick() {
 			prevs = []int{0, 1, 2, 3}
 		}
